@@ -24,6 +24,36 @@ CHECKS = {
   text="Query plan structure decided statically: Next returns a host only under index < len(hosts), increments index exactly once per returned host and never on exhaustion, picks hosts[(offset+index)%len]; NewQueryPlan snapshots the published slice and takes its offset by an atomic add; the published slice is never written through (fresh slice + atomic.Value.Store under the mutex), Remove drops the host with the matching key; counter and slice only accessed atomically.",
   note="Not covered: fairness counts, uint32 wrap, schedules; only the discipline that makes concurrent use safe is decided.",
   ref="DESIGN.md §4 C15"),
+ "C07": dict(
+  technique="static analysis: field-write inventory with dominance guards and value provenance, struct-literal argument agreement, property simulation of the pooled-connection set-up, guarded-by lockset",
+  text="Structural necessary conditions decided on every path: the connection's keyspace is written only in the USE arm after the keyspace session was created, with the statement's raw identifier text, and a failed USE writes nothing and answers one error; forwarding selects the session with (frame version, connection keyspace, connection compression) and the session table key / SessionConfig / backend handshake use exactly those three values; a pooled connection is returned only after a successful handshake and USE of the session keyspace and only such connections fill pool slots; the SET_KEYSPACE reply is Identifier.ID(); the session table is written under the exclusive lock.",
+  note="Trusted: library frame/message types, VTA. Not covered: what a backend does with USE, scheduling of concurrent USEs.",
+  ref="DESIGN.md §4 C07"),
+ "C09": dict(
+  technique="static analysis: abstract execution (property simulation) of the interception decision over all consistent assignments of its atoms, constant-table extraction, routing effect counting, identifier-comparison inventory",
+  text="The select interception decision is abstractly executed for all 12 consistent assignments of (current keyspace is system, qualifier is system, unqualified, table is a system table): handled is reachable iff system table and keyspace system by qualifier or, if unqualified, by current keyspace. The table list is the documented set; IsQueryHandled can answer handled only for SELECT/USE; QUERY/PREPARE/EXECUTE route exclusively (handled => one local answer, never forwarded; else forwarded once); identifiers are compared only through Identifier.equal with CQL case/quote rules; the current keyspace keeps the USE statement's quoting.",
+  note="Trusted: the generated lexer's tokenisation. Not covered: statement text beyond the decision structure.",
+  ref="DESIGN.md §4 C09"),
+ "C11": dict(
+  technique="static analysis: codec layout signatures by property simulation per protocol version (ordered primitive read/write/length calls with struct-field provenance), folded version predicates, error-discipline simulation",
+  text="For each partial codec (QUERY, EXECUTE, BATCH), each of Decode/Encode/EncodedLength and each version in {v3,v4,v5,DSEv1,DSEv2}, the ordered layout signature of the leading fields (primitive kind + struct field, loop bodies as sets of alternatives) equals the native-protocol layout, hence the three methods agree with each other and with the reference layout; every failed primitive read/write yields a non-nil error and no message; the value skipper accepts null/unset/empty lengths; the codecs are registered for their opcodes in all three raw codecs.",
+  note="Trusted: primitive read/write helpers of the protocol library. Not covered: byte equality for all messages, the opaque remainder.",
+  ref="DESIGN.md §4 C11"),
+ "C12": dict(
+  technique="static analysis: property simulation of the override decision with field-write inventory, provenance of the re-encoded frame and of the isSelect flag, codec layout signatures",
+  text="The request frame is forwarded as received unless it is a non-SELECT partial QUERY/EXECUTE/BATCH whose consistency is in the configured list (pure membership test, empty list => never); then the only write is Consistency := configured override; the re-encoded frame reuses the client's header and the decoded body object and is produced by ConvertToRawFrame (length = bytes written), never as a frame.Frame; isSelect comes from the parsed statement / prepared metadata / false for BATCH; the partial codecs that re-encode have the protocol layout for every version.",
+  note="Trusted: library ConvertToRawFrame/EncodeBody. Not covered: backend interpretation of the consistency.",
+  ref="DESIGN.md §4 C12"),
+ "C13": dict(
+  technique="static analysis: property simulation of the frame handler with the version gate folded over all known versions x configurable maxima, effect counting, dominance-guarded field-write inventory, constant-table comparison",
+  text="OPTIONS/STARTUP/REGISTER each produce exactly one locally built SUPPORTED/READY/ERROR and never reach a session or backend; for every known version v and maximum m the frame is rejected iff v>m or v<3, rejection = one ProtocolError naming the version, no body decoding, no forwarding, handler returns nil; codec/compression of a connection are written only at construction and in the STARTUP arm under a successful lower-cased table lookup; SUPPORTED advertises exactly the table's keys.",
+  note="Not covered: unknown version bytes (library decoder), compression algorithms, frame ordering.",
+  ref="DESIGN.md §4 C13"),
+ "C18": dict(
+  technique="static analysis: interprocedural must-lockset (guarded-by table with modes and frozen exceptions), type/atomic discipline inventory, write-once inventory, copy-on-write taint",
+  text="The lock discipline the code declares is decided for every access: 15 guarded fields are only touched with their lock held (writes exclusively) outside construction and three reasoned exceptions; shared registries keep their concurrency-safe types and counters are sync/atomic-only; request fields read without the mutex are written only at construction; ClientConn.codec only through atomic.Value; the load balancer's published slice is never written through.",
+  note="This is not a happens-before analysis: never-locked state (client.codec/keyspace, Cluster state confined to one goroutine) and ordering by channels/WaitGroups are not decided; a dynamic race detector is the tool for those.",
+  ref="DESIGN.md §4 C18"),
 }
 
 NOT_YET = "check not built yet in this round (see DESIGN.md §4 for the planned structural rules)"
